@@ -143,7 +143,8 @@ def _arg_choices(name, c):
     if k == "flag":
         return [{"state": True}, {"state": False}, {}]
     if k == "fpv":
-        return [{"state": True, "num_probe_vectors": 5}, {"state": False, "num_probe_vectors": 3}, {"state": True}, {}]
+        # the last two are hostile: whether they are accepted or refused at entry, nothing may leak out of the block
+        return [{"state": True, "num_probe_vectors": 5}, {"state": False, "num_probe_vectors": 3}, {"state": True}, {}, {"state": True, "num_probe_vectors": 0}, {"state": True, "num_probe_vectors": -2}]
     if k == "value":
         d = c.value()
         if name == "observation_nan_policy":
@@ -153,9 +154,10 @@ def _arg_choices(name, c):
         elif isinstance(d, bool):
             vals = [True, False]
         elif isinstance(d, int):
-            vals = [d + 7, max(d - 1, 1), d]
+            vals = [d + 7, max(d - 1, 1), d, 100 * d + 3, 0, -1]
         else:
-            vals = [d * 0.5, d * 4.0, d]
+            # far apart on both sides of every other float setting's default (coupled settings would show)
+            vals = [d * 1e-4, d * 4.0, d * 0.5, d * 1e4, d, 0.0, -1.0]
         return [{"value": v} for v in vals]
     if k == "dtype":
         return [
@@ -383,15 +385,31 @@ def _run_node(nd):
             raise
         return
     kw = _dec(_S["choices"][name][nd["arg"]])
-    if _S["kinds"][name] == "value":
-        obj = c(kw["value"])
-    else:
-        obj = c(**kw)
+    before = snapshot()
+    try:
+        if _S["kinds"][name] == "value":
+            obj = c(kw["value"])
+        else:
+            obj = c(**kw)
+    except Exception as e:
+        ctx.expect("refused_block_leaves_state", snapshot() == before, f"{name}({_enc(kw)}) raised {type(e).__name__} in its constructor and changed the visible state")
+        return
     _S["driver_objs"][id(obj)] = name
     _S["keep"].append(obj)
     _S["model"]["pending"][id(obj)] = {"id": id(obj), "name": name, "writes": model_writes(name, kw)}
     depth = len(_S["model"]["stack"])
-    with obj:
+    try:
+        obj.__enter__()
+    except Exception as e:
+        # refused at entry: no block was entered, so nothing may have changed
+        _S["model"]["pending"].pop(id(obj), None)
+        now = snapshot()
+        bad = [k for k in now if now[k] != before[k]]
+        ctx.expect("refused_block_leaves_state", not bad, f"{name}({_enc(kw)}) raised {type(e).__name__} in __enter__ but changed " + ", ".join(f"{k}: {before[k]!r} -> {now[k]!r}" for k in bad[:4]), fields=bad)
+        if len(_S["model"]["stack"]) != depth:
+            _S["model"]["stack"] = _S["model"]["stack"][:depth]
+        return
+    with _Entered(obj):
         # innermost block wins: what this block wrote is what is visible now
         vis = snapshot()
         w = {k: v for k, v in model_writes(name, kw).items() if k in vis}
@@ -407,6 +425,19 @@ def _run_node(nd):
             raise Boom()
     if len(_S["model"]["stack"]) != depth:
         ctx.fail("exit_matches_model", f"monitor saw no __exit__ for {name}")
+
+
+class _Entered:
+    """the block body of an already entered context manager: only __exit__ is left to run"""
+
+    def __init__(self, obj):
+        self.obj = obj
+
+    def __enter__(self):
+        return self.obj
+
+    def __exit__(self, *a):
+        return self.obj.__exit__(*a)
 
 
 def _sig(nodes):
